@@ -80,6 +80,8 @@ theorem mem_addMissing (st : St) (m k : Mod) : k âˆˆ (addMissing st m).missing â
   unfold addMissing; split <;> rfl
 @[simp] theorem addMissing_ctx (st : St) (m : Mod) : (addMissing st m).ctx = st.ctx := by
   unfold addMissing; split <;> rfl
+@[simp] theorem addMissing_lt (st : St) (m : Mod) : (addMissing st m).lt = st.lt := by
+  unfold addMissing; split <;> rfl
 
 theorem load_foot (D : Disk) (st : St) (m : Mod) : foot (load D st m).2 m := by
   unfold load
@@ -107,7 +109,7 @@ theorem getModule_mono (D : Disk) (st : St) (m : Mod) : Mono st (getModule D st 
     | none => exact load_mono D st m
     | some c =>
       simp only
-      by_cases hch : stat D m â‰  some c.mtime
+      by_cases hch : changedB st.lt (stat D m) c.mtime = true
       Â· rw [if_pos hch]
         intro k hk
         by_cases hkm : k = m
